@@ -52,6 +52,13 @@ func runC13(p *Prog, r *Report) {
 			q.Req(R, "AddPipe-under-pipe-lock", padd.AllHeld(corePipeMu), padd.Pos(p), "proto.AddPipe under p.lock", "proto.AddPipe is not called under p.lock (Close could interleave)")
 			q.Req(R, "attached-after-added", len(hookB) == 1 && hookB.DominatedBy(stAdded), hookB.Pos(p), "Attached hook dominated by added=true", "the Attached hook is not dominated by p.added = true")
 		}
+		// the pipe is in the socket's list before anything can attach it: socket.Close closes
+		// exactly the pipes in that list, so a pipe that is being attached while the socket
+		// closes must already be there (else it is attached to a closed socket and nothing
+		// ever closes it: no Detached, id never freed)
+		ladd := ap.Ev("call", "core.(*pipeList).Add")
+		q.Req(R, "listed-before-attaching", len(ladd) == 1 && len(ladd[0].Guard) == 0 && len(padd) == 1 && padd.DominatedBy(ladd) && (len(hookA) != 1 || hookA.DominatedBy(ladd)), ladd.Pos(p),
+			"pipes.Add unconditionally before the Attaching hook and proto.AddPipe", "the pipe is not put into the socket's pipe list before the Attaching hook / proto.AddPipe: a socket.Close during the attach does not see it, and it ends up attached to a closed socket that never closes it")
 		// refusal path: on AddPipe error: Remove from list + async close, no Attached, no added
 		rem := ap.Ev("call", "core.(*pipeList).Remove")
 		gocl := ap.Ev("go", "core.(*pipe).close")
@@ -176,9 +183,8 @@ func runC13(p *Prog, r *Report) {
 		q.Req(R, "nonzero", rets.AllGuarded(mask+" != 0"), rets.Pos(p), "return guarded by id != 0", "Get can return 0 (reserved)")
 		q.Req(R, "not-in-use", rets.AllGuarded("!recv.used["+mask+"]#1"), rets.Pos(p), "return guarded by the miss of used[id]", "Get can return an id that is still in use")
 		q.Req(R, "recorded-before-return", rets.DominatedBy(mu), rets.Pos(p), "insertion dominates the return", "Get returns without recording the id")
-		adv := get.Ev("store", "recv.next").Arg(0, "(recv.next + 1)")
-		q.Req(R, "advances", len(adv) == 1 && len(adv[0].Guard) == 0, adv.Pos(p), "next advances on every iteration", "next is not advanced unconditionally in the loop")
 	}
+	allocatorFreshness(p, r, R)
 	fr := q.Fn(R, "internal/core", "pipeIDAllocator", "Free")
 	if fr.OK() {
 		d := fr.Ev("delete", "delete").Arg(0, "recv.used").Arg(1, "arg1")
@@ -314,4 +320,26 @@ func hasAtomSuffix(g []string, suf string) bool {
 		}
 	}
 	return false
+}
+
+
+// allocatorFreshness: the id allocator moves past every id it hands out, so that an id is
+// not handed out again as soon as it is freed.  The raw REP/RESPONDENT sockets route a reply
+// by pipes[id] alone: the freshness of ids is what makes a late reply for a departed
+// connection miss (C05), and what keeps ids of successive connections distinct (C13).
+func allocatorFreshness(p *Prog, r *Report, R string) {
+	q := NewQ(p, r)
+	get := q.Fn(R, "internal/core", "pipeIDAllocator", "Get")
+	if !get.OK() {
+		return
+	}
+	adv := get.Ev("store", "recv.next").Arg(0, "(recv.next + 1)")
+	q.Req(R, "advances", len(adv) == 1 && len(adv[0].Guard) == 0, adv.Pos(p), "next advances on every iteration", "next is not advanced unconditionally in the loop")
+	var rets Sel
+	for _, e := range get.Ev("return", "") {
+		if len(e.Args) == 1 && e.Args[0] != "$new" && e.Args[0] != "new" {
+			rets = append(rets, e)
+		}
+	}
+	q.Req(R, "advances-before-return", len(rets) >= 1 && len(adv) >= 1 && rets.DominatedBy(adv), rets.Pos(p), "the counter has moved past the id before it is returned", "Get returns an id without having advanced the counter past it: the id just handed out is the next candidate again, so it is re-used as soon as it is freed (a late reply addressed to the departed connection reaches the newcomer)")
 }
